@@ -145,6 +145,10 @@ func (w *World) opCreateApp() {
 	c := w.C
 	a := &App{Kind: pick(c, w.prof.Kinds), NS: pick(c, []string{"ns1", "ns2"}), Policy: pick(c, w.prof.Policies)}
 	a.Name = fmt.Sprintf("%s%d", map[string]string{"sts": "web", "dp": "api", "tapp": "job", "foo": "foo", "bare": "solo"}[a.Kind], len(w.apps))
+	if a.Kind == "foo" && (w.prop == "C11" || w.prop == "C18") {
+		// "any owner kind": kinds whose lower-case form ends in s / ss, digits
+		a.OwnerKind = pick(c, []string{"Foo", "Wordpress", "Redis", "Harness", "Db2"})
+	}
 	if w.prop == "C11" {
 		// DNS-1123 edge shapes: inner dashes, names ending in -<n>, digits first, long names
 		shapes := []string{"%s", "a-1-%s", "x-y-2-%s", "0%s", "%s-9", "n234567890123456789012345678901234567890-%s"}
@@ -319,7 +323,7 @@ func (w *World) opSchedule() {
 			seen = append(seen, p)
 		}
 	}
-	if !w.C.Prob(1, 8) {
+	if !w.C.Prob(w.aheadNum, 8) {
 		cands = seen
 	}
 	if len(cands) == 0 {
@@ -609,13 +613,33 @@ func (w *World) opAPIList() {
 func (w *World) opPoolAPI() {
 	inst := w.inst
 	name := pick(w.C, []string{"blue", "green"})
-	switch w.C.Choose(4) {
+	switch w.C.Choose(5) {
+	case 4:
+		// the administrator applies the Pool object itself (kubectl apply): the size is in force, nothing is pre-allocated
+		size, pre := w.C.Range(0, 4), w.C.Prob(1, 2)
+		if w.K.Get("pools", "kube-system", name) == nil {
+			w.mustCreate("pools", map[string]interface{}{"apiVersion": "galaxy.k8s.io/v1alpha1", "kind": "Pool",
+				"metadata": map[string]interface{}{"name": name, "namespace": "kube-system"}, "size": size, "preAllocateIP": pre})
+		} else {
+			w.K.Patch(nil, "pools", "kube-system", name, func(m map[string]interface{}) { m["size"] = size; m["preAllocateIP"] = pre })
+		}
+		b, _ := json.Marshal(map[string]interface{}{"name": name, "size": size, "preAllocateIP": pre})
+		w.poolBodies[name] = append(w.poolBodies[name], b)
+		w.S.Stat("pool.applied-directly")
 	case 0:
 		w.spawnGalaxy("pool-get", "api", func() { httpTask(inst, "pool-get", "GET", "/v1/pool/"+name, nil) })
 	case 1:
 		w.spawnGalaxy("pool-del", "api", func() { httpTask(inst, "pool-del", "DELETE", "/v1/pool/"+name, nil) })
 	default:
 		body, _ := json.Marshal(map[string]interface{}{"name": name, "size": w.C.Range(0, 4), "preAllocateIP": w.C.Prob(1, 2)})
+		if old := w.poolBodies[name]; len(old) > 0 && w.C.Prob(1, 3) {
+			// a client re-applies a desired state it posted earlier (automation, a retry): the request may equal a
+			// version of the Pool that is no longer the stored one
+			body = old[w.C.Choose(len(old))]
+			w.S.Stat("pool.reapplied-earlier-request")
+		} else {
+			w.poolBodies[name] = append(w.poolBodies[name], body)
+		}
 		w.spawnGalaxy("pool-set", "api", func() { httpTask(inst, "pool-set", "POST", "/v1/pool", body) })
 		if w.C.Prob(1, 3) {
 			// a second client applies another size for the same pool at the same moment (two administrators, or a
